@@ -650,7 +650,7 @@ type cellRegion interface {
 	ContainsPoint(s2.Point) bool
 }
 
-func checkRegion(c *vkit.Collector, rng *vkit.Rng, name string, reg cellRegion, sh *idxShape, n int, desc interface{}) {
+func checkRegion(c *vkit.Collector, rng *vkit.Rng, name string, reg cellRegion, own *s2.ShapeIndex, sh *idxShape, n int, desc interface{}) {
 	const clear = 1e-12
 	// points
 	var pts []s2.Point
@@ -666,25 +666,11 @@ func checkRegion(c *vkit.Collector, rng *vkit.Rng, name string, reg cellRegion, 
 				map[string]interface{}{"shape": desc, "p": p3(p)})
 		}
 	}
-	// cells: around vertices and edge midpoints at levels from coarse to fine
-	for i := 0; i < n; i++ {
-		e := sh.edges[rng.Intn(len(sh.edges))]
-		base := []s2.Point{e.V0, s2.Interpolate(0.5, e.V0, e.V1), randPoint(rng), sh.ref.Point}[rng.Intn(4)]
-		edgeLevel := s2.AvgEdgeMetric.ClosestLevel(e.V0.Distance(e.V1).Radians() + 1e-12)
-		level := edgeLevel - 3 + rng.Intn(8)
-		if rng.Intn(4) == 0 {
-			level = rng.Intn(8)
-		}
-		if level < 0 {
-			level = 0
-		}
-		if level > 30 {
-			level = 30
-		}
-		id := s2.CellFromPoint(base).ID().Parent(level)
-		if rng.Intn(3) == 0 {
-			id = id.EdgeNeighbors()[rng.Intn(4)]
-		}
+	// checkCell compares ContainsCell / IntersectsCell of one target with the brute-force decision:
+	// exact (both directions) when no edge comes within 1e-12 of the cell or an edge passes through
+	// its interior; one-sided when an edge only grazes the boundary.
+	checkCell := func(id s2.CellID, where string) {
+		level := id.Level()
 		cell := s2.CellFromCellID(id)
 		nearOut, nearIn := false, false
 		for _, ed := range sh.edges {
@@ -699,7 +685,7 @@ func checkRegion(c *vkit.Collector, rng *vkit.Rng, name string, reg cellRegion, 
 		centerIn := bruteContains(sh, cell.Center())
 		gotC, gotI := reg.ContainsCell(cell), reg.IntersectsCell(cell)
 		c.Eval(fmt.Sprintf("%s.Cell:%x", name, uint64(id)), true)
-		rp := map[string]interface{}{"shape": desc, "cell": fmt.Sprintf("%x", uint64(id)), "level": level, "ContainsCell": gotC, "IntersectsCell": gotI, "centerInside": centerIn}
+		rp := map[string]interface{}{"shape": desc, "cell": fmt.Sprintf("%x", uint64(id)), "level": level, "where": where, "ContainsCell": gotC, "IntersectsCell": gotI, "centerInside": centerIn}
 		switch {
 		case nearIn: // an edge passes through the interior of the cell
 			if gotC {
@@ -722,6 +708,73 @@ func checkRegion(c *vkit.Collector, rng *vkit.Rng, name string, reg cellRegion, 
 			if !gotI && centerIn {
 				c.Violate(name+".IntersectsCell", "IntersectsCell false but the cell centre is inside", rp)
 			}
+		}
+	}
+	// cells: around vertices and edge midpoints at levels from coarse to fine
+	for i := 0; i < n; i++ {
+		e := sh.edges[rng.Intn(len(sh.edges))]
+		base := []s2.Point{e.V0, s2.Interpolate(0.5, e.V0, e.V1), randPoint(rng), sh.ref.Point}[rng.Intn(4)]
+		edgeLevel := s2.AvgEdgeMetric.ClosestLevel(e.V0.Distance(e.V1).Radians() + 1e-12)
+		level := edgeLevel - 3 + rng.Intn(8)
+		if rng.Intn(4) == 0 {
+			level = rng.Intn(8)
+		}
+		if level < 0 {
+			level = 0
+		}
+		if level > 30 {
+			level = 30
+		}
+		id := s2.CellFromPoint(base).ID().Parent(level)
+		if rng.Intn(3) == 0 {
+			id = id.EdgeNeighbors()[rng.Intn(4)]
+		}
+		checkCell(id, "near the boundary")
+	}
+	// cells of the shape's own index: the index cells themselves (edge-free interior cells always),
+	// their parents and children - where the LocateCellID relation changes
+	if own != nil {
+		cells := own.VerifCells()
+		var edgeFree, withEdges []s2.CellID
+		for _, cell := range cells {
+			ne := 0
+			for _, cl := range cell.Shapes {
+				ne += len(cl.Edges)
+			}
+			if ne == 0 {
+				edgeFree = append(edgeFree, cell.ID)
+			} else {
+				withEdges = append(withEdges, cell.ID)
+			}
+		}
+		c.Class(fmt.Sprintf("region:%s index has edge-free interior cells: %v", name, len(edgeFree) > 0))
+		var targets []s2.CellID
+		for i, id := range edgeFree {
+			if i >= 24 {
+				break
+			}
+			targets = append(targets, id)
+			if id.Level() < 30 {
+				ch := id.Children()
+				targets = append(targets, ch[0], ch[1], ch[2], ch[3])
+			}
+			if id.Level() > 0 {
+				targets = append(targets, id.Parent(id.Level()-1))
+			}
+		}
+		for i := 0; i < 3*n && len(withEdges) > 0; i++ {
+			id := withEdges[rng.Intn(len(withEdges))]
+			targets = append(targets, id)
+			if id.Level() < 30 {
+				targets = append(targets, id.Children()[rng.Intn(4)])
+			}
+			if id.Level() > 0 {
+				targets = append(targets, id.Parent(id.Level()-1))
+			}
+			targets = append(targets, id.EdgeNeighbors()[rng.Intn(4)])
+		}
+		for _, id := range targets {
+			checkCell(id, "own index")
 		}
 	}
 }
@@ -757,9 +810,22 @@ func correspondCellRelations(c *vkit.Collector, rng *vkit.Rng, name string, reg 
 	}
 	var terms []string
 	it := own.Iterator()
-	for n := 0; n < 14; n++ {
+	var edgeFree []s2.CellID
+	for _, cell := range cells {
+		ne := 0
+		for _, cl := range cell.Shapes {
+			ne += len(cl.Edges)
+		}
+		if ne == 0 {
+			edgeFree = append(edgeFree, cell.ID)
+		}
+	}
+	for n := 0; n < 16; n++ {
 		var t s2.CellID
 		base := cells[rng.Intn(len(cells))].ID
+		if n < 3 && n < len(edgeFree) {
+			base = edgeFree[n] // the index cell is the target itself (n%5 == 0) or its child / parent
+		}
 		switch n % 5 {
 		case 0:
 			t = base
@@ -829,16 +895,23 @@ func checkRegions(c *vkit.Collector, rng *vkit.Rng, budget int) {
 			l := s2.RegularLoop(center, radius, n)
 			c.Class("region:Loop")
 			lsh := newIdxShape(l, "Loop", true, desc)
-			checkRegion(c, rng, "Loop", l, lsh, 12, desc)
+			checkRegion(c, rng, "Loop", l, s2.VerifC06LoopIndex(l), lsh, 12, desc)
 			correspondCellRelations(c, rng, "Loop", l, s2.VerifC06LoopIndex(l), lsh)
 		} else {
-			// shell with a hole; the hole has > 32 vertices too
-			outer := s2.RegularLoop(center, radius, n)
-			inner := s2.RegularLoop(center, radius/2, 33+rng.Intn(10))
-			p := s2.PolygonFromLoops([]*s2.Loop{outer, inner})
+			// a shell alone, or with a hole (half or a sixth of the radius; the hole has > 32 vertices too)
+			loops := []*s2.Loop{s2.RegularLoop(center, radius, n)}
+			switch (it / 2) % 3 {
+			case 0:
+				loops = append(loops, s2.RegularLoop(center, radius/2, 33+rng.Intn(10)))
+				desc["hole"] = 0.5
+			case 2:
+				loops = append(loops, s2.RegularLoop(center, radius/6, 33+rng.Intn(10)))
+				desc["hole"] = 1.0 / 6
+			}
+			p := s2.PolygonFromLoops(loops)
 			c.Class("region:Polygon")
 			psh := newIdxShape(p, "Polygon", true, desc)
-			checkRegion(c, rng, "Polygon", p, psh, 12, desc)
+			checkRegion(c, rng, "Polygon", p, s2.VerifC06PolygonIndex(p), psh, 12, desc)
 			correspondCellRelations(c, rng, "Polygon", p, s2.VerifC06PolygonIndex(p), psh)
 		}
 	}
